@@ -2,6 +2,7 @@ import GojaModel.C01.EmitProof
 import GojaModel.C01.StmtProof
 import GojaModel.C01.RetExact
 import GojaModel.C01.Stmt2
+import GojaModel.C01.Stmt2Sound
 import GojaModel.C01.Flat
 import GojaModel.C01.Scope
 /-!
@@ -117,6 +118,24 @@ theorem emitStmt2_height (cfg : Cfg) (s : S2) (lc : Option Bool) (td : Nat) (ex 
 /-- a whole function / program body: no branch target outside (`none`), exit height = entry height -/
 theorem emitBody2_height (cfg : Cfg) (ss : SS2) (nr : Bool) (h : Nat) : H2 none none (emitBody2 cfg ss nr) h h :=
   emit2_ht cfg (.block ss) none 0 [] nr h h rfl
+
+/-- The executable reading: walking the structured code of any `S2` statement with the executable height function and
+checking every `break` / `continue` against the height its target expects, every loop back edge and update against the
+loop-head height and the three parts of every try statement for neutrality never fails (`none`); the result is `dead` or
+`live` at the entry height (`H2.sound`). -/
+theorem emitStmt2_height_exec (cfg : Cfg) (s : S2) (lc : Option Bool) (td : Nat) (ex : List Bool) (nr : Bool) (hl : Nat) :
+    (emit2 cfg lc td ex s nr).height2 (ctx lc hl) (ctx lc hl) (.live (hl + slots ex)) = some .dead ∨
+    (emit2 cfg lc td ex s nr).height2 (ctx lc hl) (ctx lc hl) (.live (hl + slots ex)) = some (.live (hl + slots ex)) :=
+  (emit2_ht cfg s lc td ex nr hl _ rfl).sound
+
+/-- the walk is not vacuous: `while (x) { break; }` passes, the same loop with an operand left on the stack before the
+`break` is refused, and so is a `break` that skips the `leaveBlock` of a catch-parameter scope. -/
+theorem emitStmt2_witness :
+    (C2.loop jneP true (.ins iLoadVal) .brk .nil).height2 none none (.live 0) = some (.live 0) ∧
+    (C2.loop jneP true (.ins iLoadVal) (.seq (.old (.ins iLoadVal)) .brk) .nil).height2 none none (.live 0) = none ∧
+    (C2.loop jneP true (.ins iLoadVal) (.tryC false .nil true true .brk false .nil) .nil).height2 none none (.live 0) = none ∧
+    (C2.loop jneP true (.ins iLoadVal) (.tryC false .nil true true (.seq (.old (exitCode [true, false])) .brk) false .nil)
+      .nil).height2 none none (.live 0) = some (.live 0) := by decide
 
 /-! ### (a) function-level leaks -/
 
